@@ -237,9 +237,14 @@ class FrameGroup:
 
 
 class H5Stub:
+    filename = "/cwd/o.h5"
+    name = "/"
+    mode = "r"
+
     def __init__(self, fm):
         self.fm = fm
         self.read = []
+        self.file = self
 
     def __contains__(self, name):
         return False          # not a DynamicsData.to_hdf5 group
@@ -328,7 +333,12 @@ def run_reader(mutate=None, prefixes=("C05.",)):
         spec = loops.LoopSpec("FRAMES", inv, havoc_heap=havoc_heap, name="C05.reader.frame_loop")
         V.loops = {"FRAMES": spec}
         Dyn = L["DynamicsData"]
+        st0 = instrument.module_state(L)
         res = Dyn.from_hdf5(h5, SI(0), F)
+        # frame condition: reading a file leaves no state behind in the module (a result remembered across calls is keyed by something - a path, a
+        # range - that does not determine the contents of a file)
+        ch = instrument.module_state_changes(st0, instrument.module_state(L))
+        check("C05.reader.result_is_a_function_of_the_file_contents.no_module_state_written", z3.BoolVal(not ch), note=f"module-level state changed by the call: {ch}")
 
         def facts(b, c):
             return unfoldT(b * k + c)
